@@ -23,6 +23,8 @@ type ana struct {
 	s2   float64 // magnitude of a second derivative per unit directions
 	f1   func(u []*mat) []float64
 	f2   func(u, v []*mat) []float64
+	// chk: defining-equation check replacing the comparison with ref
+	chk func(vals []float64, eps float64) string
 	// iter: tolerance of routines that stop on a convergence threshold is
 	// rel*scale (stated as such), not eps-scaled
 	iter float64
@@ -50,7 +52,11 @@ func (o *ana) unit(eps float64) float64 {
 }
 
 func (o *ana) check(vals []float64, eps float64) string {
-	tol := 64 * o.unit(eps) * o.s0
+	if o.chk != nil {
+		return o.chk(vals, eps)
+	}
+	// value-level defects are O(1); never admit more than 1% of the scale
+	tol := math.Min(64*o.unit(eps), 1e-2) * o.s0
 	for i, v := range vals {
 		if i < len(o.ref) && !math.IsNaN(o.ref[i]) && !near(v, o.ref[i], tol) {
 			return fmt.Sprintf("value %d: %g vs reference %g", i, v, o.ref[i])
@@ -230,6 +236,21 @@ func detPDOracle(a *mat, logScale bool, eps float64) *ana {
 	return o
 }
 
+// residualDefect: |A X - B| relative to |A| |X| + |B|; a backward stable solve
+// leaves a few n*eps, the known un-permutation defect leaves O(1).
+func residualDefect(a, x, b *mat, eps float64) string {
+	r := subm(mul(a, x), b)
+	sc := a.normInf()*x.normInf() + b.normInf()
+	lim := 1e-9
+	if eps == eps32 {
+		lim = 1e-3
+	}
+	if !(r.normInf() <= lim*sc) {
+		return fmt.Sprintf("residual |A X - B| = %g, scale %g", r.normInf(), sc)
+	}
+	return ""
+}
+
 /* inverse
  * -------------------------------------------------------------------------- */
 
@@ -249,6 +270,12 @@ func inverseOracle(a *mat, eps float64) *ana {
 	}
 	o.ref = x.a
 	o.s0, o.s1, o.s2 = nx, nx*nx, 2*nx*nx*nx
+	o.chk = func(vals []float64, eps float64) string {
+		if len(vals) != n*n {
+			return "shape"
+		}
+		return residualDefect(a, matFrom(n, n, vals), eye(n), eps)
+	}
 	o.f1 = func(u []*mat) []float64 { return scale(mul3(x, zeroIfNil(u[0], n, n), x), -1).a }
 	o.f2 = func(u, v []*mat) []float64 {
 		uu, vv := zeroIfNil(u[0], n, n), zeroIfNil(v[0], n, n)
@@ -291,6 +318,25 @@ func solveOracle(a, bm *mat, bv []float64, ib, iv int, eps float64) *ana {
 	o.s0, o.s1, o.s2 = na*sc, na*sc, 2*na*na*sc
 	if o.s0 < sc {
 		o.s0 = sc
+	}
+	o.chk = func(vals []float64, eps float64) string {
+		off := 0
+		if bm != nil {
+			if len(vals) < n*bm.c {
+				return "shape"
+			}
+			if s := residualDefect(a, matFrom(n, bm.c, vals[:n*bm.c]), bm, eps); s != "" {
+				return s
+			}
+			off = n * bm.c
+		}
+		if bv != nil {
+			if len(vals) < off+n {
+				return "shape"
+			}
+			return residualDefect(a, matFrom(n, 1, vals[off:off+n]), matFrom(n, 1, bv), eps)
+		}
+		return ""
 	}
 	dX := func(u []*mat) (*mat, *mat) {
 		ua := zeroIfNil(u[0], n, n)
